@@ -91,6 +91,9 @@ ME (op) (const char *op, int d, int a, int b, const int *v, int nv)
 	/* padding bits (beyond the width, and the extra stride word) must be ignored whatever they hold:
 	 * an optional trailing script value chooses their content (default: all ones) */
 	memset (bits, (nv > 2 + w * h) ? v[2 + w * h] : 0xff, 4 * stride_words * h);
+	if (nv > 2 + w * h && v[2 + w * h] >= 256)      /* padding that differs from line to line (a view onto a wider bitmap) */
+	    for (y = 0; y < h; y++)
+		memset (bits + y * stride_words, (v[2 + w * h] + 37 * y * y + 11 * y) & 0xff, 4 * stride_words);
 	for (y = 0; y < h; y++)
 	    for (x = 0; x < w; x++)
 	    {
